@@ -155,7 +155,10 @@ def _run(prop, tier, test, seed, nshards, binary, outdir, t0):
                              cwd=os.path.join(HARNESS, "props"), env=env, stdout=lf, stderr=subprocess.STDOUT)
         procs.append((i, p, lf))
     rcs = {}
-    deadline = time.time() + float(os.environ.get("VERIF_TIMEOUT", "0") or 0 or (5400 if tier == "thorough" else 1200))
+    limit = float(os.environ.get("VERIF_TIMEOUT", "0") or 0)
+    if limit <= 0:
+        limit = 5400 if tier == "thorough" else 1200
+    deadline = time.time() + limit
     for i, p, lf in procs:
         try:
             rcs[i] = p.wait(timeout=max(1, deadline - time.time()))
